@@ -7,21 +7,33 @@ import (
 	"bytes"
 	"fmt"
 	"io"
+	"net"
+	"strings"
 
 	"github.com/gotd/td/internal/verif/kit"
 	rt "github.com/gotd/td/internal/verif/lib/reftransport"
 	"github.com/gotd/td/mtproxy"
 	"github.com/gotd/td/mtproxy/obfuscated2"
+	"github.com/gotd/td/mtproxy/obfuscator"
 )
 
 // W is one handshake + data exchange.
 type W struct {
-	// Client: "td" = obfuscated2.NewObfuscated2(...).Handshake, "ref" = reference client built from
-	// the specification (then only the accepting side is td code).
+	// Client: "td" = obfuscated2.NewObfuscated2(...).Handshake, "obfuscator" = the same through
+	// obfuscator.Obfuscated2(rand, net.Conn) (what telegram/dcs uses), "ref" = reference client built
+	// from the specification (then only the accepting side is td code).
 	Client string `json:"client"`
 	Tag    string `json:"tag"`    // 4 bytes hex
 	DC     int    `json:"dc"`     // int16 range
-	Secret string `json:"secret"` // "none" | pattern name for 16 bytes
+	Secret string `json:"secret"` // "none" | pattern name for the 16 key bytes
+	// SecretKind: how the mtproxy.Secret value handed to Handshake is made from the 16 key bytes K:
+	//   ""                   mtproxy.Secret{Secret: K}
+	//   "parse:simple"       mtproxy.ParseSecret(K)                       (Type Simple)
+	//   "parse:secured:XX"   mtproxy.ParseSecret(XX || K)                 (Type Secured, Tag XX; XX in ef, ee, dd)
+	//   "parse:tls:XX"       mtproxy.ParseSecret(XX || K || cloak host)   (Type TLS, Tag XX, CloakHost)
+	//   "struct:T:XX:C"      mtproxy.Secret{Secret: K, Type: T, Tag: 0xXX, CloakHost: C=1 ? host : ""}
+	// The accepting side always gets K.
+	SecretKind string `json:"secret_kind,omitempty"`
 	// Rand describes the client's random source: a list of 64-byte blocks that are served first
 	// (named by how they start), followed by a deterministic stream.
 	Rand []string `json:"rand,omitempty"`
@@ -82,6 +94,54 @@ func secretOf(name string) []byte {
 	return kit.Pattern(name, 16)
 }
 
+const cloakHost = "cloak.example.org"
+
+// secretValue builds the mtproxy.Secret of the witness.
+func secretValue(kind string, key []byte) (mtproxy.Secret, error) {
+	f := strings.Split(kind, ":")
+	switch {
+	case kind == "":
+		return mtproxy.Secret{Secret: key}, nil
+	case kind == "parse:simple":
+		return mtproxy.ParseSecret(append([]byte(nil), key...))
+	case len(f) == 3 && f[0] == "parse" && (f[1] == "secured" || f[1] == "tls"):
+		raw := append(kit.UnHex(f[2]), key...)
+		if f[1] == "tls" {
+			raw = append(raw, cloakHost...)
+		}
+		return mtproxy.ParseSecret(raw)
+	case len(f) == 4 && f[0] == "struct":
+		var t, c int
+		if _, err := fmt.Sscan(f[1], &t); err != nil {
+			return mtproxy.Secret{}, err
+		}
+		if _, err := fmt.Sscan(f[3], &c); err != nil {
+			return mtproxy.Secret{}, err
+		}
+		s := mtproxy.Secret{Secret: key, Type: mtproxy.SecretType(t), Tag: kit.UnHex(f[2])[0]}
+		if c != 0 {
+			s.CloakHost = cloakHost
+		}
+		return s, nil
+	}
+	return mtproxy.Secret{}, fmt.Errorf("unknown secret kind %q", kind)
+}
+
+// netRW makes an io.ReadWriter look like a net.Conn (obfuscator.Obfuscated2 wants one; only Read
+// and Write are used).
+type netRW struct {
+	net.Conn
+	rw io.ReadWriter
+}
+
+func (n netRW) Read(p []byte) (int, error)  { return n.rw.Read(p) }
+func (n netRW) Write(p []byte) (int, error) { return n.rw.Write(p) }
+
+type tdClient interface {
+	io.ReadWriter
+	Handshake(protocol [4]byte, dc int, s mtproxy.Secret) error
+}
+
 func connChunk(name string) rt.Chunking {
 	switch name {
 	case "whole":
@@ -139,12 +199,22 @@ func eval(w W) kit.Result {
 	clientConn := &rt.Conn{}
 	var client io.ReadWriter
 	var ref rt.Obf2
+	var headerBad kit.Result
 
 	switch w.Client {
-	case "td":
+	case "td", "obfuscator":
 		rnd := io.MultiReader(bytes.NewReader(randBytes(w)), kit.NewStream(0xC18))
-		o := obfuscated2.NewObfuscated2(rnd, clientConn)
-		if err := o.Handshake(tag, w.DC, mtproxy.Secret{Secret: secret}); err != nil {
+		var o tdClient
+		if w.Client == "td" {
+			o = obfuscated2.NewObfuscated2(rnd, clientConn)
+		} else {
+			o = obfuscator.Obfuscated2(rnd, netRW{rw: clientConn})
+		}
+		sv, err := secretValue(w.SecretKind, secret)
+		if err != nil {
+			return kit.Bad("bad-witness", "secret %s: %v", w.SecretKind, err)
+		}
+		if err := o.Handshake(tag, w.DC, sv); err != nil {
 			return kit.Bad("handshake-error", "Handshake: %v", err)
 		}
 		if len(clientConn.W) != 64 {
@@ -156,7 +226,8 @@ func eval(w W) kit.Result {
 		}
 		ref = rt.Obf2FromHeader(header, secret)
 		if ref.Tag != tag || ref.DC != int16(w.DC) {
-			return kit.Bad("header-not-spec", "header decrypts (reference key schedule) to tag %x dc %d, handshake was called with %x %d", ref.Tag, ref.DC, tag, w.DC)
+			// reported after the statement's own oracle (what Accept recovers) had its say
+			headerBad = kit.Bad("header-not-spec", "header decrypts (reference key schedule) to tag %x dc %d, handshake was called with %x %d", ref.Tag, ref.DC, tag, w.DC)
 		}
 		for i, p := range c2sParts {
 			n, err := o.Write(p)
@@ -166,7 +237,7 @@ func eval(w W) kit.Result {
 		}
 		want := make([]byte, len(c2sAll))
 		ref.C2S.XORKeyStream(want, c2sAll)
-		if !bytes.Equal(clientConn.W[64:], want) {
+		if headerBad.Class == "" && !bytes.Equal(clientConn.W[64:], want) {
 			return kit.Bad("c2s-wire-not-spec", "client-to-server bytes on the wire differ from AES-256-CTR of the reference key schedule (%d bytes)", len(want))
 		}
 		client = o
@@ -206,6 +277,9 @@ func eval(w W) kit.Result {
 	if md.DC != uint16(w.DC) || int16(md.DC) != int16(w.DC) {
 		return kit.Bad("metadata:dc", "client dc %d, accepted %d (as int16: %d)", w.DC, md.DC, int16(md.DC))
 	}
+	if headerBad.Class != "" {
+		return headerBad
+	}
 	got, err := readAll(rw, w.Buf)
 	if err != nil {
 		return kit.Bad("c2s-read-error", "server Read: %v", err)
@@ -243,6 +317,9 @@ func eval(w W) kit.Result {
 		}
 	}
 	out := w.Client + ":ok"
+	if w.SecretKind != "" {
+		out += ":secret=" + strings.Join(strings.Split(w.SecretKind, ":")[:2], ":")
+	}
 	if len(w.Rand) > 0 {
 		out += ":rand=" + w.Rand[0]
 		if len(w.Rand) > 1 {
@@ -290,7 +367,9 @@ func main() {
 		}
 		c.Rule("(A) metadata: clients {td Obfuscated2.Handshake, reference client from the spec} x tags {efefefef, eeeeeeee, dddddddd, 00000000, ffffffff, 01020304, efeeddcc} x DC {-32768,-10002,-10001,-3,-2,-1,0,1,2,3,4,5,10001,10002,10005,32767} x secrets {none, 2 pseudo-random 16 B, 16 zero bytes} x " +
 			"random sources for the td client: plain stream, and streams whose first 1 or 3 64-byte blocks start with each reserved pattern {ef, HEAD, POST, GET , OPTI, 16030102, dddddddd, eeeeeeee, second int 0, efefefefefefefef, ef+zero}, all 9 in a row, and 7 near-miss blocks that differ from a reserved pattern in one byte (must be accepted); " +
-			"(B) data: write sequences of length <=3 over {0,1,15,16,17,64,1000} bytes, the same sequence shape in both directions (quick: length <=2 plus 40 triples), x secrets {none, a} (thorough + b) x tags (thorough: ef, ee, dd; quick: ee) x underlying connection chunking {whole, 1 byte, 7 bytes} x Read buffer size {1, 7, 64 KiB}; every single split point of the wire stream (64-byte header included) for 5 write shapes x 2 secrets x 2 buffers. " +
+			"(A2) the mtproxy.Secret value handed to Handshake: entry points {obfuscated2.NewObfuscated2, obfuscator.Obfuscated2 over a net.Conn} x 7 tags x 16 DC x keys {pseudo-random, zero} x every mtproxy.ParseSecret form {16 B simple, tag||key secured, tag||key||host fake-TLS} with secret tag {ef, ee, dd} (secret tag and protocol tag crossed, equal and different), "+
+			"and hand-built values Type {0, Simple, Secured, TLS} x Tag {0, ef, ee, dd} x CloakHost {empty, set} x key {none, 16 B} x 7 tags x DC {-10002,-2,2,10002} (thorough: all 16); the accepting side gets the 16 key bytes; "+
+			"(B) data: write sequences of length <=3 over {0,1,15,16,17,64,1000} bytes, the same sequence shape in both directions (quick: length <=2 plus 40 triples), x secrets {none, a, a parsed as dd-secured} (thorough + b and every ParseSecret form) x tags (thorough: ef, ee, dd; quick: ee) x underlying connection chunking {whole, 1 byte, 7 bytes} x Read buffer size {1, 7, 64 KiB}; every single split point of the wire stream (64-byte header included) for 5 write shapes x 2 secrets x 2 buffers. " +
 			"Oracle: Accept returns the client's tag and DC; bytes read by the peer equal the bytes written, in both directions; the 64-byte header does not start with a reserved pattern; and (reference model) the header decrypts to tag/DC and both wire streams equal AES-256-CTR under the key schedule of the specification. distinct = distinct witnesses.")
 		c.Assume("reference key schedule in lib/reftransport written from core.telegram.org/mtproto/mtproto-transports#transport-obfuscation on crypto/aes, crypto/cipher, crypto/sha256; the scripted connection reports EOF separately from data (like TCP); DC ids outside int16 are out of scope (the wire field has 16 bits)")
 
@@ -324,6 +403,50 @@ func main() {
 				}
 			}
 		}
+		// (A2) the mtproxy.Secret value: every way of making it x tag x DC x entry point
+		secretTags := []string{"ef", "ee", "dd"}
+		parseKinds := []string{"parse:simple"}
+		for _, t := range secretTags {
+			parseKinds = append(parseKinds, "parse:secured:"+t, "parse:tls:"+t)
+		}
+		var structKinds []string
+		for typ := 0; typ <= 3; typ++ {
+			for _, t := range append([]string{"00"}, secretTags...) {
+				for cloak := 0; cloak <= 1; cloak++ {
+					if typ == 0 && t == "00" && cloak == 0 {
+						continue // that is the plain literal of (A)
+					}
+					structKinds = append(structKinds, fmt.Sprintf("struct:%d:%s:%d", typ, t, cloak))
+				}
+			}
+		}
+		structDCs := []int{-10002, -2, 2, 10002}
+		if c.Thorough() {
+			structDCs = dcs
+		}
+		for _, client := range []string{"td", "obfuscator"} {
+			for _, tag := range tags {
+				for _, dc := range dcs {
+					for _, sec := range []string{"stream:c18sa", "zero"} {
+						for _, k := range parseKinds {
+							add(W{Client: client, Tag: tag, DC: dc, Secret: sec, SecretKind: k, C2S: []int{17}, S2C: []int{16, 1}, Conn: "whole"})
+						}
+					}
+					if client == "obfuscator" {
+						add(W{Client: client, Tag: tag, DC: dc, Secret: "none", C2S: []int{17}, S2C: []int{16, 1}, Conn: "whole"})
+						add(W{Client: client, Tag: tag, DC: dc, Secret: "stream:c18sb", C2S: []int{17}, S2C: []int{16, 1}, Conn: "one"})
+					}
+				}
+				for _, dc := range structDCs {
+					for _, sec := range []string{"none", "stream:c18sa"} {
+						for _, k := range structKinds {
+							add(W{Client: client, Tag: tag, DC: dc, Secret: sec, SecretKind: k, C2S: []int{17}, S2C: []int{16, 1}, Conn: "whole"})
+						}
+					}
+				}
+			}
+		}
+		c.Set("secret_kinds", len(parseKinds)+len(structKinds)+1)
 		// (B)
 		sizes := []int{0, 1, 15, 16, 17, 64, 1000}
 		var shapes [][]int
@@ -342,13 +465,20 @@ func main() {
 			}
 		}
 		dataTags := []string{"eeeeeeee"}
-		dataSecrets := []string{"none", "stream:c18sa"}
+		// {key, secret kind}
+		dataSecrets := [][2]string{{"none", ""}, {"stream:c18sa", ""}, {"stream:c18sa", "parse:secured:dd"}}
 		if c.Thorough() {
 			dataTags = []string{"efefefef", "eeeeeeee", "dddddddd"}
-			dataSecrets = append(dataSecrets, "stream:c18sb")
+			dataSecrets = append(dataSecrets, [2]string{"stream:c18sb", ""})
+			for _, k := range parseKinds {
+				if k != "parse:secured:dd" {
+					dataSecrets = append(dataSecrets, [2]string{"stream:c18sa", k})
+				}
+			}
 		}
 		for _, tag := range dataTags {
-			for _, sec := range dataSecrets {
+			for _, ds := range dataSecrets {
+				sec, kind := ds[0], ds[1]
 				for _, sh := range shapes {
 					rev := make([]int, len(sh))
 					for i := range sh {
@@ -356,8 +486,8 @@ func main() {
 					}
 					for _, conn := range []string{"whole", "one", "every7"} {
 						for _, buf := range []int{1, 7, 0} {
-							add(W{Client: "td", Tag: tag, DC: 2, Secret: sec, C2S: sh, S2C: rev, Conn: conn, Buf: buf})
-							if buf == 0 {
+							add(W{Client: "td", Tag: tag, DC: 2, Secret: sec, SecretKind: kind, C2S: sh, S2C: rev, Conn: conn, Buf: buf})
+							if buf == 0 && kind == "" {
 								add(W{Client: "ref", Tag: tag, DC: 2, Secret: sec, C2S: sh, S2C: rev, Conn: conn, Buf: buf})
 							}
 						}
